@@ -1,7 +1,7 @@
 """C04 — conv-probe property (see vlib/props/convprops.py)."""
 from vlib.props import convprops as P, convcommon as cc
 from vlib import convgen as g
-globals().update(P.make('C04', 'conv probe: generic sweep (every letter of the command alphabet after 12 prefixes x configurations incl. TLS), random walks under {one segment, line per segment, byte per segment, random cuts}; the whole reply stream is parsed with a strict RFC 5321 recogniser, codes and enhanced codes compared exactly with the model. non-trivial = at least one backend callback', ['C04_own_verdict', 'C04_reply_syntax', 'C04_reply_syntax_multiline', 'C04_one_reply_per_command', 'C04_error_reply_and_notice', 'C04_lmtp_one_reply_per_recipient', 'C04_starttls_replies', 'C04_auth_replies'], None, lambda a: cc.project(a, codes='exact', enh=True, drecs='ret'), tls=True, configs=None))
+globals().update(P.make('C04', 'conv probe: generic sweep (every letter of the command alphabet after 12 prefixes x configurations incl. TLS), random walks under {one segment, line per segment, byte per segment, random cuts}; the whole reply stream is parsed with a strict RFC 5321 recogniser, codes and enhanced codes compared exactly with the model. non-trivial = at least one backend callback', ['C04_own_verdict', 'C04_reply_syntax', 'C04_reply_syntax_multiline', 'C04_one_reply_per_command', 'C04_error_reply_and_notice', 'C04_lmtp_one_reply_per_recipient', 'C04_starttls_replies', 'C04_auth_replies', 'C04_echo_printable', 'C04_echo_faithful', 'C04_echo_sites'], None, lambda a: cc.project(a, codes='exact', enh=True, drecs='ret'), tls=True, configs=None))
 
 # --- schedules: a slow delivery of an aborted transfer completing before/after the next transaction -------------
 from vlib.core import Group as _Group
@@ -10,9 +10,35 @@ _g0 = groups
 RULE = RULE + " | sched probe: every order of {aborted delivery completes, next transaction arrives, its delivery completes} (see C20)"
 
 
+def echo_cases(tier, rng):
+    """replies that quote the peer: the unknown command word, the greeting name, the addresses of MAIL and RCPT, the <recipient> prefix of
+    an LMTP status (DATA, BDAT LAST, a failed chunk) - with control octets, DEL, a bare CR, 8-bit octets in what is quoted.  Judged by the
+    reply-syntax rule (text of a reply line: HT, printable ASCII, octets >= 0x80)."""
+    cases = []
+    odd = [b"\x00", b"\x01", b"\r", b"\x1b", b"\x7f", b"\x0b", b"\t", b"\xe9", b"\xc3\xa9", b"\x1f"]
+    for o in odd:
+        for lm in (0, 1):
+            hello = b"LHLO" if lm else b"EHLO"
+            c = g.Conv(dict(lmtp=lm)); c.add(b"AB" + o + b"D\r\n"); c.add(b"NOOP\r\n"); cases.append(c.case(seg="line"))
+            c = g.Conv(dict(lmtp=lm)); c.add(hello + b" a" + o + b"b\r\n", NS="ok"); c.add(b"NOOP\r\n"); cases.append(c.case(seg="line"))
+            if not lm:
+                c = g.Conv({}); c.add(b"HELO a" + o + b"b\r\n", NS="ok"); cases.append(c.case(seg="one"))
+            for lms in ((0,) if not lm else (0, 1)):
+                c = g.Conv(dict(lmtp=lm, lmtpsess=lms))
+                c.add(hello + b" x\r\n", NS="ok"); c.add(b"MAIL FROM:<s" + o + b"t@x>\r\n", MAIL="ok")
+                c.add(b"RCPT TO:<r" + o + b"q@y>\r\n", RCPT="ok"); c.add(b"RCPT TO:<plain@y>\r\n", RCPT="ok")
+                c.add(b"DATA\r\n"); c.add(b"hi\r\n.\r\n", DATA=g.ddec(ret=rng.choice(["ok", g.se(550, "5.7.1", b"no")])))
+                c.add(b"MAIL FROM:<s@x>\r\n", MAIL="ok"); c.add(b"RCPT TO:<r" + o + b"q@y>\r\n", RCPT="ok")
+                c.add(b"BDAT 2 LAST\r\nhi", DATA=g.ddec(ret=rng.choice(["ok", g.er(b"disk")])))
+                c.add(b"QUIT\r\n")
+                cases.append(c.case(seg=rng.choice(["line", "one"]), rng=rng))
+    return cases
+
+
 def groups(tier, rng):
     sc = [c for c in _C20.sched_cases(tier, rng) if not c.endswith("TAG=lifecycle")]
-    return _g0(tier, rng) + [_Group("sched/delivery-orders", sc, project=_C20.project, theorems=THEOREMS)]
+    return _g0(tier, rng) + [_Group("sched/delivery-orders", sc, project=_C20.project, theorems=THEOREMS),
+                             _Group("conv/replies-that-quote-the-peer", echo_cases(tier, rng), project=lambda c, a: cc.project(a, codes="exact", enh=True, drecs="ret"), theorems=THEOREMS)]
 
 
 # --- static: the reply table read off the source ---------------------------------------------------------------------------
